@@ -118,7 +118,9 @@ CLS = {"T": 0, "F": 1, "E": 2, "X": 3, "P": 4}
 
 
 def build_cases(run_dir, want=120):
-    """pick evenly spaced supported lines; return (coq case list text, count)"""
+    """pick evenly spaced supported lines; return (coq case list text, count). Parses are bounded in total parser steps
+    (the engine runs about a hundred times slower under vm_compute than extracted), long ones are left to the extracted model."""
+    step_budget = [want * 1500]
     cmds = open(os.path.join(run_dir, "model_in.sexp"), encoding="utf-8", errors="surrogateescape").read().split("\n")
     outs = open(os.path.join(run_dir, "model_out.txt"), encoding="utf-8", errors="surrogateescape").read().split("\n")
     conv = Conv()
@@ -139,6 +141,13 @@ def build_cases(run_dir, want=120):
             if sx[0] == "parse":
                 mx = "None" if sx[2] == "none" else "(Some %s%%N)" % sx[2]
                 peg = "true" if sx[1] == "peg" else "false"
+                try:
+                    nsteps = int(o.split(" ")[1])
+                except (ValueError, IndexError):
+                    continue
+                if nsteps > step_budget[0]:
+                    continue
+                step_budget[0] -= nsteps
                 if o.startswith("A "):
                     _, steps, tree = o.split(" ", 2)
                     if tree == "NOTEXPR":
